@@ -28,12 +28,12 @@ Consume == l < Len(Evs) /\ l' = l + 1 /\ tid' = tid
 
 TNext == Consume /\
     \/ (E.a = "get"     /\ Get1(E.i, E.ik, E.re))
-    \/ (E.a = "set"     /\ Set1(E.i, E.ik, E.v, E.re))
+    \/ (E.a = "set"     /\ Set1(E.i, E.ik, E.v, E.re, E.cnd))
     \/ (E.a = "getb"    /\ GetB(E.i, E.ik, E.re))
     \/ (E.a = "setb"    /\ SetB(E.i, E.ik, E.v, E.re))
     \/ (E.a = "get2"    /\ Get2(E.i, E.ik, E.j, E.jk, E.re))
     \/ (E.a = "getrow"  /\ GetRow(E.i, E.ik, E.re))
-    \/ (E.a = "set2"    /\ Set2(E.i, E.ik, E.j, E.jk, E.v, E.re))
+    \/ (E.a = "set2"    /\ Set2(E.i, E.ik, E.j, E.jk, E.v, E.re, E.cnd))
     \/ (E.a = "copyrow" /\ CopyRow(E.i, E.j, E.jk))
 
 TSpec == TInit /\ [][TNext]_tvars
